@@ -16,8 +16,8 @@ Inductive op :=
 
 (* environment of the scheduler: what the scripted server will do, and the writer's bufio.Writer:
    [unflushed] are requests written into the buffer and not yet flushed, [armed] says that flushTimerCh is set
-   (writer: "if flushTimerCh == nil && (len(chW) == 0 || len(chR) == cap(chR))" after each write; the flush itself happens in the
-   slow paths of the two selects).  The server only receives — and only answers — flushed requests. *)
+   (writer: "if flushTimerCh == nil && (len(chW) == 0 || len(chR) == cap(chR))" after each write, and — since the fix — also before
+   going idle with a non-empty buffer; the flush itself happens in the slow paths of the two selects).  The server only receives — and only answers — flushed requests. *)
 Record env := { avail : nat; closed : bool; dirty : bool; auto : bool; delivered : list nat;
                 unflushed : list nat; armed : bool }.
 
@@ -90,7 +90,11 @@ Definition next_label2 (s : st) (e : env) : option (option label * env) :=
             Some (Some (LWPop true),
                   {| avail := avail e; closed := closed e; dirty := closed e; auto := auto e; delivered := delivered e;
                      unflushed := unflushed e ++ [id]; armed := arm |})
-      | WIdle, [] => if armed e then Some (None, flush e)                                            (* againChW slow path *)
+      | WIdle, [] =>
+          (* againChW slow path: "if flushTimerCh == nil && bw.Buffered() > 0" arms the flush before the select, so unflushed data
+             is flushed whether or not a write armed it (before commit 1c25925 only [armed e] flushed here and a request written
+             in front of items that then expired stayed in the buffer for ever) *)
+          if armed e || (match unflushed e with [] => false | _ => true end) then Some (None, flush e)
                      else if closed e && dirty e then Some (Some LWExit, e) else None
       | WDown, _ => None
       end
